@@ -8,6 +8,7 @@ From Sekai Require Import Base.Prelude Base.Dec Model.Validators.
    o_eb (end block only): (updates returned (key, power), consensus applied them?, consensus set after (key, power)) *)
 Record obs := mkObs {
   o_res : res;
+  o_gone : list Z;              (* validator addresses that disappeared (address rotation) *)
   o_dv : list (Z * vrec);
   o_dsi : list (Z * sinfo);
   o_cidx : option (list (Z * Z));
@@ -28,7 +29,7 @@ Definition observe (s : state) (o : op) (b : obs) : state :=
   let '(cs, halt) := match o_eb b with
                      | Some (_, applied, set) => (map fst set, st_halt s || negb applied)
                      | None => (st_cset s, st_halt s) end in
-  mkSt (fold_left (fun a e => upd (fst e) (snd e) a) (o_dv b) (st_vals s))
+  mkSt (fold_left (fun a e => upd (fst e) (snd e) a) (o_dv b) (fold_left (fun a v => del v a) (o_gone b) (st_vals s)))
        (dflt (o_pend b) (st_pend s)) (dflt (o_rm b) (st_rm s)) (dflt (o_re b) (st_re s))
        (dflt (o_cidx b) (st_cidx s))
        (fold_left (fun a e => upd (fst e) (snd e) a) (o_dsi b) (st_si s))
@@ -66,6 +67,8 @@ Definition step_matches (cfg : config) (s : state) (o : op) (b : obs) : bool :=
   && match o, o_eb b with
      | OEndBlock, Some (ups, _, _) => let '(_, _, mups) := end_block s in list_eqb zz_eqb mups ups
      | OEndBlock, None => false
+     | OGenesis, Some (ups, _, _) => list_eqb zz_eqb (genesis_updates s) ups
+     | OGenesis, None => false
      | _, Some _ => false
      | _, None => true
      end.
@@ -108,6 +111,7 @@ Definition op_label (o : op) : string :=
   | OClaim _ _ _ => "claim" | OPause _ => "pause" | OUnpause _ => "unpause" | OActivate _ => "activate"
   | OVotes _ => "downtime" | OEvidence _ => "evidence" | OUnjail _ => "unjail" | OReset => "reset"
   | OUpPause _ => "upgrade-pause" | ONewBlock _ => "newblock" | OEndBlock => "endblock"
+  | ORotate _ _ => "rotate" | OGenesis => "genesis-import"
   end.
 
 Definition vals_with_key (vals : list (Z * vrec)) (k : Z) : list Z :=
@@ -174,7 +178,12 @@ Definition end_block_clauses (c : chk) (s s' : state) (b : obs) : list string :=
         else ["not-applied"]
     | l => l
     end
-  | RPanic, _ => ["endblock-panic"]
+  | RPanic, _ =>
+      (* BlockValidatorUpdates panics when a queued address has no validator record *)
+      match filter (fun v => match lookup v (st_vals s) with Some _ => false | None => true end) (st_rm s ++ st_re s)%list with
+      | v :: _ => ["endblock-panic:" ++ label_in c v]
+      | [] => ["endblock-panic"]
+      end
   | _, _ => ["endblock-unobserved"]
   end.
 
@@ -189,7 +198,12 @@ Definition affected (s s' : state) : list Z :=
 
 Definition chk_next (c : chk) (s s' : state) (o : op) : chk :=
   match o with
-  | ONewBlock _ | OEndBlock => mkChk (st_vals s') [] None
+  | ONewBlock _ | OEndBlock | OGenesis => mkChk (st_vals s') [] None
+  | ORotate v v' =>
+      (* the record keeps its history under both addresses *)
+      let e := ("rotate", option_map fst (lookup v (ck_eff c))) in
+      mkChk (match lookup v (ck_start c) with Some r => upd v' r (ck_start c) | None => ck_start c end)
+            (upd v' e (upd v e (ck_eff c))) (ck_last_rm c)
   | _ =>
     let lbl := op_label o in
     let enq := filter (fun v => negb (smem v (st_rm s))) (st_rm s') in
@@ -203,7 +217,14 @@ Fixpoint c05_clauses (cfg : config) (c : chk) (s : state) (l : list (op * obs)) 
   | [] => []
   | (o, b) :: r =>
     let s' := observe s o b in
-    let here := match o with OEndBlock => end_block_clauses c s s' b | _ => [] end in
+    let here := match o with
+                | OEndBlock => end_block_clauses c s s' b
+                | OGenesis => (* the InitChain response is the whole new consensus set *)
+                    match o_res b with
+                    | RPanic => ["genesis-import-empty-set"]
+                    | _ => end_block_clauses (mkChk (st_vals s) [] None) (set_cons s [] (st_halt s)) s' b
+                    end
+                | _ => [] end in
     (here ++ c05_clauses cfg (chk_next c s s' o) s' r)%list
   end.
 
